@@ -4,7 +4,7 @@ set -u
 P=$1; shift
 cd /repo
 if ! git diff --quiet; then echo "/repo dirty, refusing"; exit 2; fi
-git apply $P 2>/dev/null || git apply -3 $P 2>/dev/null || { echo PATCH-DOES-NOT-APPLY; git checkout -- .; exit 3; }
+git apply $P 2>/dev/null || { echo PATCH-DOES-NOT-APPLY; git reset -q HEAD; git checkout -- .; exit 3; }
 git reset -q 2>/dev/null
 cd /verif
 for id in "$@"; do
